@@ -62,6 +62,8 @@ type World struct {
 	Flag  bool
 	Obj   *Inner
 	Items []Item
+	Deadline time.Time // the moment the time-dependent field `phase` flips from "active" to "expired" (zero: no deadline)
+	SlowMs   int       // work the phase resolver does between reading the clock and registering the deadline
 	Details map[int64]Detail
 	nodes   map[int64]*Node
 	Tick  int64
@@ -274,6 +276,7 @@ func (w *World) Versions() map[string]int {
 	for k, v := range w.ver {
 		m[k] = v
 	}
+	m["phase@clock"] = w.phaseAt(time.Now())
 	return m
 }
 
@@ -310,7 +313,32 @@ func (w *World) ItemsNow() []Item {
 	return append([]Item{}, w.Items...)
 }
 
+// PhaseNow: the version of the time-dependent field: 0 no deadline, 1 before it, 2 from it on.
+func (w *World) PhaseNow() int {
+	w.mu.Lock()
+	defer w.mu.Unlock()
+	return w.phaseAt(time.Now())
+}
+
+func (w *World) phaseAt(now time.Time) int {
+	switch {
+	case w.Deadline.IsZero():
+		return 0
+	case now.Before(w.Deadline):
+		return 1
+	}
+	return 2
+}
+
+// DeadlinePending: the data is about to change by itself.
+func (w *World) DeadlinePending() bool {
+	return w.PhaseNow() == 1
+}
+
 func (w *World) Version(field string) int {
+	if field == "phase@clock" {
+		return w.PhaseNow()
+	}
 	w.mu.Lock()
 	defer w.mu.Unlock()
 	return w.ver[field]
@@ -490,6 +518,33 @@ func Schema() *graphql.Schema {
 			}
 			return nil, nil
 		})
+		// a time-dependent field: "active" until the deadline, "expired" from then on; the resolver reads the clock, may
+		// do some work, and registers the deadline with reactive.InvalidateAt - which by then may lie in the past
+		q.FieldFunc("phase", func(ctx context.Context) (string, error) {
+			w := worldOf(ctx)
+			if err := w.read(ctx, "phase"); err != nil {
+				return "", err
+			}
+			now := time.Now()
+			w.mu.Lock()
+			ph, deadline, slow := w.phaseAt(now), w.Deadline, w.SlowMs
+			w.mu.Unlock()
+			tok, _ := ctx.Value(runKey{}).(*RunTok)
+			if tok != nil {
+				w.rec.exec(tok, "phase@clock", ph)
+			}
+			switch ph {
+			case 0:
+				return "idle", nil
+			case 2:
+				return "expired", nil
+			}
+			if tok != nil && slow > 0 {
+				time.Sleep(time.Duration(slow) * time.Millisecond)
+			}
+			reactive.InvalidateAt(ctx, deadline)
+			return "active", nil
+		})
 		nodeObj := sb.Object("Node", Node{})
 		nodeObj.FieldFunc("detail", func(ctx context.Context, n *Node) *Detail {
 			w := worldOf(ctx)
@@ -625,7 +680,13 @@ var SubQueries = []string{
 	`query F { first: node(id: 1) { ...D } second: node(id: 1) { ...D detail { e } } } fragment D on Node { detail { d } }`,
 	`query G { full: nodes { id ...D ...E } brief: nodes { id ...D } } fragment D on Node { detail { d } } fragment E on Node { detail { e } }`,
 	`query H { one: node(id: 2) { ...E id } all: nodes { id ...E detail { d } } s } fragment E on Node { detail { e } }`,
+	// a field whose value flips at a deadline (reactive.InvalidateAt)
+	`{ phase }`,
+	`{ phase a }`,
 }
+
+// FirstClockSubQuery: the queries from here on read the clock.
+const FirstClockSubQuery = 24
 
 // FirstCacheSubQuery: the queries from here on use the executor's reactive cache.
 const FirstCacheSubQuery = 19
